@@ -82,6 +82,7 @@ type Incarnation struct {
 	// fault plan
 	crashAt int // crash immediately before the k-th mutating store call from now (0 = off)
 	failAt  int // the k-th failable store call from now returns an error (0 = off)
+	failLogAt int // the k-th StoreLogs call from now returns an error (0 = off; directed families only)
 	crashedAtGate bool
 	parkAt  int           // park the caller at the k-th mutating store call from now (slow disk)
 	parkCh  chan struct{} // non-nil while a caller is parked
@@ -119,6 +120,14 @@ func (inc *Incarnation) mutGate(op string, failable bool) (bool, error) {
 			if inc.dead {
 				return false, nil
 			}
+		}
+	}
+	if op == "storelogs" && inc.failLogAt > 0 {
+		inc.failLogAt--
+		if inc.failLogAt == 0 {
+			inc.node.c.Tr.Emit("store", inc.node.ID, M{"op": op, "err": "injected"})
+			inc.failedSince = true
+			return true, errInjected
 		}
 	}
 	if failable && inc.failAt > 0 {
